@@ -279,6 +279,11 @@ def gen_scenario(rng, name=None):
         args['objfun_has_noise'] = enc(True)
         args['rhoend'] = enc(1e-3)
         args['maxfun'] = enc(int(rng.choice([40, 80, 120])))
+        if rng.random() < 0.4:
+            # restarts that add interpolation points (Model.add_new_point extends every per-point array)
+            up['restarts.increase_npt'] = True
+            up['restarts.increase_npt_amt'] = int(rng.integers(1, 3))
+            up['restarts.max_npt'] = int(dec(args['npt'])) + 4 if 'npt' in args else n + 1 + int(rng.integers(2, 5))
         if name == 'hard_restarts':
             up['restarts.use_soft_restarts'] = False
             if rng.random() < 0.5:
